@@ -478,9 +478,9 @@ class TheJoker:
 
             pm.Deterministic("logp", model.logp())
 
-            dist = pm.Normal.dist(model.model_rv, data.rv_err.value)
+            dist = pm.Normal.dist(model.model_rv, err)
             lnlike = pm.Deterministic(
-                "ln_likelihood", pm.logp(dist, data.rv.value).sum(axis=-1)
+                "ln_likelihood", pm.logp(dist, y).sum(axis=-1)
             )
 
             pm.Deterministic("ln_prior", model.logp() - lnlike)
